@@ -4,9 +4,12 @@ from vcore import hexs
 
 ID = "C05"
 LEVEL = "proof"
-_T = ["scalarmult_rc_exact", "has_small_order_exact", "blocklist_sound", "clamp_idempotent", "kx_cross", "kx_keys_spec", "top_bit_ignored"]
-THEOREMS = vcore.theorems_in("SodiumModel/Properties/C05.lean", _T, "Sodium.C05")
-IMPORTS = ["SodiumModel.Properties.C05"] if THEOREMS else ["SodiumModel.Spec.Curve25519"]
+_T = ["scalarmult_rc_exact", "scalarmult_rc_fail", "scalarmult_ref10_exact", "scalarmult_sandy2x_exact", "impl_rc_agree", "has_small_order_exact", "has_small_order_iff", "blocklist_sound",
+      "blocklist_values", "clamp_exact", "clamp_idempotent", "clamp_determines", "top_bit_ignored", "top_bit_flip", "noncanonical_reduced", "model_eq_spec", "kx_keys_spec", "kx_cross_mult",
+      "kx_cross", "kx_cross_spec", "kx_fail", "kx_both_null", "kx_null_alias", "kx_same_buffer", "kx_seed_keypair_spec", "box_seed_keypair_spec", "beforenm_spec", "beforenm_cross"]
+_T2 = ["blocklist_ladder_all", "blocklist_sound_all", "ref10_eq_spec", "impl_agree_spec"]
+THEOREMS = vcore.theorems_in("SodiumModel/Properties/C05.lean", _T, "Sodium.C05") + vcore.theorems_in("SodiumModel/Properties/C05LowOrder.lean", _T2, "Sodium.C05")
+IMPORTS = ["SodiumModel.Properties.C05", "SodiumModel.Properties.C05LowOrder"] if THEOREMS else ["SodiumModel.Spec.Curve25519"]
 RULE = ("random (scalar, point) pairs; the low-order / non-canonical u-coordinates (0, 1, the two order-8 points, p-1, p, p+1) with either top bit; u in p-k..p+k and "
         "2^255-k..2^255-1; scalars covering all 32 clamp-bit patterns; limb-structured field elements (all-ones 51-bit and 25.5-bit limbs); key exchange: both sides computed "
         "and required cross-equal; box in both cipher variants with all call forms; seeded key pairs; backends: AVX (sandy2x) / ref10 fe51 / fe25.5 / portable")
@@ -43,6 +46,20 @@ def points(rng, full):
             v |= ((1 << min(w, 255 - i)) - 1) << i
         pts.append((v % (1 << 255)).to_bytes(32, "little"))
         pts.append(((1 << 255) - 19 - (1 << w)).to_bytes(32, "little"))
+    # neighbours of every blocklist row of has_small_order (has_small_order_exact: ONLY the rows themselves, top bit cleared, are rejected early):
+    # each byte with its high bit flipped, single-bit flips, and sparse {00, 80} byte patterns
+    for u in edpy.X_LOW:
+        row = bytearray((u % (1 << 256)).to_bytes(32, "little"))
+        for j in range(32):
+            q = bytearray(row); q[j] ^= 0x80; pts.append(bytes(q))
+        for bit in (range(256) if full else rng.sample(range(256), 24)):
+            q = bytearray(row); q[bit // 8] ^= 1 << (bit % 8); pts.append(bytes(q))
+    for _ in range(24 if not full else 200):
+        q = bytearray(32)
+        for j in rng.sample(range(32), rng.randrange(1, 5)):
+            q[j] = 0x80
+        q[0] |= rng.choice([0, 0, 1])
+        pts.append(bytes(q))
     for _ in range(60 if not full else 400):
         pts.append(rb(rng, 32))
     return pts
